@@ -628,6 +628,18 @@ func (pool *TxPool) add(tx *types.Transaction, local bool) (replaced bool, err e
 		invalidTxMeter.Mark(1)
 		return false, err
 	}
+	// A transaction colliding with a same-nonce one it cannot replace is refused further
+	// down; refuse it before room is made for it, so a rejected submission leaves the
+	// pool unchanged.
+	from, _ := types.Sender(pool.signer, tx) // already validated
+	for _, list := range []*txList{pool.pending[from], pool.queue[from]} {
+		if list == nil {
+			continue
+		}
+		if old := list.txs.Get(tx.Nonce()); old != nil && !canReplace(old, tx, pool.config.PriceBump) {
+			return false, ErrReplaceUnderpriced
+		}
+	}
 	// If the transaction pool is full, discard underpriced transactions
 	if uint64(pool.all.Slots()+numSlots(tx)) > pool.config.GlobalSlots+pool.config.GlobalQueue {
 		// If the new transaction is underpriced, don't accept it
@@ -665,7 +677,6 @@ func (pool *TxPool) add(tx *types.Transaction, local bool) (replaced bool, err e
 		}
 	}
 	// Try to replace an existing transaction in the pending pool
-	from, _ := types.Sender(pool.signer, tx) // already validated
 	if list := pool.pending[from]; list != nil && list.Overlaps(tx) {
 		// Nonce already pending, check if required price bump is met
 		inserted, old := list.Add(tx, pool.config.PriceBump)
